@@ -12,17 +12,17 @@ use xml_dom::{
 pub const START_DOCS: &[&str] = &[
     "<r><a id=\"1\">x<b/>y</a><c k=\"v\"><!--m--><d/></c><?p q?>t</r>",
     "<r id=\"r\"><a id=\"1\" k=\"x\">t</a><b id=\"2\" k=\"y\"><c k=\"z\"/></b></r>",
-    "<!DOCTYPE r [<!ENTITY e \"ee\"><!ATTLIST a d CDATA \"dv\">]><r>t1<a n=\"1\">&e;<![CDATA[cd]]></a><b><c><d>deep</d></c></b></r>",
+    "<!DOCTYPE r [<!ENTITY e \"ee\"><!ENTITY m \"<i>x</i>\"><!ATTLIST a d CDATA \"dv\">]><r>t1<a n=\"1\">&e;<![CDATA[cd]]></a><b><c><d>deep</d>&m;</c></b></r>",
     "<r xmlns=\"urn:d\" xmlns:p=\"urn:1\"><g><p:a p:k=\"1\" k=\"2\">\u{e9}\u{1F600}</p:a><b>one</b></g>two<s xmlns:p=\"urn:2\" xmlns=\"\"><p:c/><d>three</d></s></r>",
     "<?x y?><!DOCTYPE r><r><!--c1--><a>a-b-c</a><b>]]</b><c>1</c></r><!--end-->",
     "<r><!--a-b-c--><![CDATA[]]x>]]><t>]]x></t><u q=\"x'\" w=\"]]>\">-</u><!---x--></r>",
 ];
 
 /// strings for names and data: harmless, markup-significant, multi-byte
-pub const NAMES: &[&str] = &["e", "a", "b", "n", "k", "id", "p:q", "x1", "a x=\"1\"", "1a", "", "a b", "<", "\u{e9}", "xml", "a:b:c", "-a"];
-pub const SAFE_NAMES: &[&str] = &["e", "a", "b", "n", "k", "id", "x1", "\u{e9}"];
+pub const NAMES: &[&str] = &["e", "a", "b", "n", "k", "id", "d", "p", "p:q", "x1", "a x=\"1\"", "1a", "", "a b", "<", "\u{e9}", "xml", "a:b:c", "-a"];
+pub const SAFE_NAMES: &[&str] = &["e", "a", "b", "n", "k", "id", "d", "p", "x1", "\u{e9}"];
 pub const DATA: &[&str] = &[
-    "", "x", "abc", "a-b-c", "-", "--", "a-", "]", "]]", "]]>", ">", "<", "&", "&amp;", "\"", "'", "\"'", "?>", "?", " ", "\n", "\u{e9}", "\u{1F600}", "e\u{301}", "a\u{1F600}b\u{e9}c", "<b/>", "&#65;", "&e;", "x y",
+    "", "x", "abc", "a-b-c", "-", "--", "a-", "]", "]]", "]]>", ">", "<", "&", "&amp;", "\"", "'", "\"'", "?>", "?", " ", "\n", "\u{e9}", "\u{1F600}", "e\u{301}", "a\u{1F600}b\u{e9}c", "<b/>", "&#65;", "&e;", "&m;", "x y",
 ];
 pub const SAFE_DATA: &[&str] = &["", "x", "abc", "a b", "\u{e9}", "\u{1F600}", "e\u{301}", "a\u{1F600}b\u{e9}c", "12", "z"];
 
